@@ -24,6 +24,9 @@ type Violation struct {
 	Env       map[string]any `json:"env,omitempty"`
 	Observed  any            `json:"observed,omitempty"`
 	Expected  any            `json:"expected,omitempty"`
+	// History: the executions run just before this one in the same process (replayed first, results ignored):
+	// a violation that depends on state left behind by earlier calls is only reproducible with them.
+	History []json.RawMessage `json:"history,omitempty"`
 }
 
 type vioGroup struct {
@@ -64,6 +67,8 @@ type Ctx struct {
 	// replayable description is written here so that the driver can attribute the death to it.
 	JournalPath string
 	journal     *os.File
+	history     [][]byte // descriptions of the previous executions (most recent last)
+	current     []byte
 	curInput    int64
 	Skip        map[int64]bool
 }
@@ -92,6 +97,16 @@ func (c *Ctx) Mine(k int64) bool {
 
 // Begin journals the execution about to start.
 func (c *Ctx) Begin(v *Violation) {
+	v.Property = c.Prop
+	if vb, err := json.Marshal(v); err == nil {
+		if c.current != nil {
+			c.history = append(c.history, c.current)
+			if len(c.history) > 2 {
+				c.history = c.history[len(c.history)-2:]
+			}
+		}
+		c.current = vb
+	}
 	if c.JournalPath == "" {
 		return
 	}
@@ -162,6 +177,9 @@ func (c *Ctx) Violate(v *Violation) {
 	g.Count++
 	if len(g.Replays) >= c.MaxReplays {
 		return
+	}
+	for _, hb := range c.history {
+		v.History = append(v.History, json.RawMessage(hb))
 	}
 	b, _ := json.MarshalIndent(v, "", " ")
 	sum := sha1.Sum(b)
